@@ -43,6 +43,7 @@ type UnitSpec struct {
 	Package  string            `json:"package"`
 	Harness  []string          `json:"harness"`
 	Arith    string            `json:"arith"`
+	Solver   string            `json:"solver"`
 	Unwind   int               `json:"unwind"`
 	Stubs    map[string]string `json:"stubs"`
 	SkipInit []string          `json:"skip_init"`
@@ -426,6 +427,7 @@ func cmdCheck(args []string) int {
 	var notes []string
 	totalViol, confirmedNew := 0, 0
 	allFuncs := map[string]bool{}
+	solversUsed := map[string]bool{}
 	exit := 0
 	if err != nil {
 		notes = append(notes, "INCONCLUSIVE: loading /repo failed: "+err.Error())
@@ -476,7 +478,15 @@ func cmdCheck(args []string) int {
 				cfg.HarnessPkg = sp
 				cfg.Seed = seed
 				cfg.Arith = firstNonEmpty(es.Arith, u.Arith, "bv")
-				cfg.Solver = firstNonEmpty(es.Solver, "z3")
+				// z3 4.8.12 answers "unknown" on many div/mod-by-constant integer queries that
+				// z3 5.1.0 decides in milliseconds (probed on the timestamp codec); bit-vector
+				// queries go to the system z3
+				defSolver := "z3"
+				if cfg.Arith == "int" {
+					defSolver = "z3-new"
+				}
+				cfg.Solver = firstNonEmpty(es.Solver, u.Solver, defSolver)
+				solversUsed[map[string]string{"z3": "z3 4.8.12 (/usr/bin/z3 -in)", "z3-new": "z3 5.1.0 (z3-new -in)", "cvc5": "cvc5 1.0 (--incremental)"}[cfg.Solver]] = true
 				if es.Unwind > 0 {
 					cfg.Unwind = es.Unwind
 				} else if u.Unwind > 0 {
@@ -688,7 +698,7 @@ func cmdCheck(args []string) int {
 			"assertion_obligations_discharged": discharged,
 			"queries":                      map[string]any{"total": qtot, "sat": qsat, "unsat": qunsat, "unknown": qunk},
 			"solver_time_s":                round3(stime),
-			"solvers":                      []string{"z3 4.8.12 (/usr/bin/z3 -in)"},
+			"solvers":                      keysOf(solversUsed),
 			"complete_within_bounds":       complete,
 			"load":                         loadInfo,
 			"notes":                        notes,
@@ -781,4 +791,13 @@ func cmdReplay(args []string) int {
 	}
 	fmt.Fprintln(os.Stderr, "unit not found for package", rf.Package)
 	return 2
+}
+
+func keysOf(m map[string]bool) []string {
+	var ks []string
+	for k := range m {
+		ks = append(ks, k)
+	}
+	sort.Strings(ks)
+	return ks
 }
